@@ -75,3 +75,50 @@ Example C04_ex_adversarial :
                (1, 0, 0, [], RNil)] in
   Forall (fun r => reply_wf r = true) (fst (run_srv (srv_init 1) prog)).
 Proof. exact (proj2 (run_srv_total 1 _)). Qed.
+
+(* ---------------------------------------------------------------- the value invariants, all families (Mem/AllInv.v)
+   [all_ok d] = db_wf d /\ lists_ok d /\ hashes_ok d /\ sets_ok d /\ zsets_ok d /\ streams_ok d:
+   the shared representation invariant and the value invariant of every typed family, each as
+   its owner states it.  "Keeps serving" includes that no command of any family can leave a
+   degenerate value behind for a later command to trip over. *)
+Require Mem.AllInv Mem.AvlProofs Mem.StreamsProofs.
+
+Theorem C04_value_invariants_initial : AllInv.all_ok empty_db.
+Proof. exact AllInv.all_ok_empty. Qed.
+Print Assumptions C04_value_invariants_initial.
+
+(* EVERY command of EVERY family (any name, any argument vector), every clock, every observed
+   reply: RENAME moving values between keys, DEL, SET overwriting a key of another type, the
+   STORE forms, LMOVE, SMOVE, the expiry purge, ... *)
+Theorem C04_value_invariants_step : forall d now nowms args hint,
+  AllInv.all_ok d -> AllInv.all_ok (snd (exec d now nowms args hint)).
+Proof. exact AllInv.exec_all_ok. Qed.
+Print Assumptions C04_value_invariants_step.
+
+Theorem C04_value_invariants_server_step : forall s conn now nowms args hint,
+  AllInv.srv_all_ok s -> AllInv.srv_all_ok (snd (srv_exec s conn now nowms args hint)).
+Proof. exact AllInv.srv_exec_all_ok. Qed.
+Print Assumptions C04_value_invariants_server_step.
+
+(* after any program of any commands of any families from any connections at any clocks, from
+   the initial server: every numbered database satisfies all_ok *)
+Theorem C04_value_invariants_programs : forall n prog,
+  AllInv.srv_all_ok (snd (run_srv (srv_init n) prog)).
+Proof. exact AllInv.run_srv_init_all_ok. Qed.
+Print Assumptions C04_value_invariants_programs.
+
+(* ... spelled out: no empty list / hash / set is ever stored, hash fields and set members are
+   never duplicated, every stored sorted set is a valid AVL tree with consistent dict / len (and
+   not empty), every stored stream has strictly increasing 64-bit ids *)
+Theorem C04_no_degenerate_value_stored : forall n prog d k v,
+  In d (sdbs (snd (run_srv (srv_init n) prog))) -> db_get d k = Some v ->
+  match v with
+  | VStr _ => True
+  | VList l => l <> []
+  | VHash h => h <> [] /\ NoDup (akeys h)
+  | VSet s => NoDup s /\ s <> []
+  | VZSet z => AvlProofs.zset_inv z /\ zroot z <> Leaf
+  | VStream x => StreamsProofs.stream_ok x
+  end.
+Proof. exact AllInv.run_srv_init_value. Qed.
+Print Assumptions C04_no_degenerate_value_stored.
